@@ -328,3 +328,40 @@ class Cut:
                 ex.axiom(z3.Implies(bi, z3.Or(v == 1, v == -1)))
                 out.append(EV(v, bi, bn))
         return npmodel.Arr(out)
+
+
+class SharedCut:
+    """cumprod observer for comparisons between runs: products are replaced by fresh, completely unconstrained floats
+    (NaN and infinities included), one per distinct *prefix of factor terms*; two runs whose first j factors are the same
+    terms therefore get the same T_j.  Trivially sound (an unconstrained value over-approximates any product)."""
+
+    def __init__(self, table):
+        self.table = table
+
+    def __enter__(self):
+        npmodel.OBSERVERS.append(self)
+        return self
+
+    def __exit__(self, *a):
+        npmodel.OBSERVERS.remove(self)
+
+    def __call__(self, name, arg):
+        if name != 'cumprod':
+            return None
+        ex = core.cur()
+        out = []
+        key = ()
+        for f in arg.a:
+            f = EV.of(f)
+            parts = (z3.simplify(f.v), f.inf if isinstance(f.inf, bool) else z3.simplify(f.inf),
+                     f.nan if isinstance(f.nan, bool) else z3.simplify(f.nan))
+            key = key + tuple(p if isinstance(p, bool) else p.get_id() for p in parts)
+
+            def make(parts=parts):
+                _fresh[0] += 1
+                q = _fresh[0]
+                v, bi, bn = z3.Real(f"P!{q}"), z3.Bool(f"Pinf!{q}"), z3.Bool(f"Pnan!{q}")
+                return (EV(v, bi, bn), parts), [z3.Implies(bi, z3.Or(v == 1, v == -1))]
+            val = ex.define(('prod', key), make)
+            out.append(val[0])
+        return npmodel.Arr(out)
